@@ -37,6 +37,7 @@ type c15Op struct {
 type c15Env struct {
 	scripts map[string]*plrt.Script // loaded once, shared by all histories (as a host would)
 	v2      map[string]*v2.Script   // the same for the v2 interpreter
+	kept    map[string]*plrt.Script // loaded by an operation of the current history and still held by the host
 }
 
 var c15V2Sources = map[string]string{
@@ -71,12 +72,14 @@ var c15Sources = map[string]string{
 	"badre.p":   "add_key(before, 1)\nreplace(message, \"(unclosed\", \"x\")\nadd_key(after, 1)\n",
 	"usebad.p":  "add_key(k, len(message))\nuse(\"badre.p\")\n",
 	"pf.p":      "x = [1, 2]\nfor i = 0; i < 5; i = i + 1 { printf(\"%v %v\\n\", \"item\", x[i]) }\n",
+	// an unknown zone (asked for again by every run), a known one, and the default
+	"tz.p": "default_time(ts, \"Mars/Olympus_Mons\")\nadd_key(after, 1)\ndefault_time(ts2, \"Asia/Tokyo\")\n",
 	"lit.p":    "g = [[0, 0], [1]]\ng[0][0] += 1\nm = {\"k\": [0], \"j\": {\"n\": 0}}\nm[\"k\"][0] += 1\nm[\"j\"][\"n\"] = m[\"j\"][\"n\"] + 1\nadd_key(g0, g[0][0])\nadd_key(mk, m[\"k\"][0])\nadd_key(mj, m[\"j\"][\"n\"])\nif \"a\" in [\"a\", \"b\"] { add_key(found, true) }\nsql_cover(sq)\nset_tag(newtag, \"set on a point that came without tags\")\n",
 }
 
 func c15Points() []PointSpec {
 	return []PointSpec{
-		{Meas: "m1", Tags: map[string]string{"t1": "tv"}, Fields: map[string]any{"message": "hello 42", "f1": int64(7), "f2": 2.5, "sq": `select * from t where dir = 'c:\temp\'`, "fj": `{"a": [1], "level": "info"}`}, Time: 1600000000000000000},
+		{Meas: "m1", Tags: map[string]string{"t1": "tv"}, Fields: map[string]any{"message": "hello 42", "f1": int64(7), "f2": 2.5, "sq": `select * from t where dir = 'c:\temp\'`, "fj": `{"a": [1], "level": "info"}`, "ts": "2021-01-02 03:04:05", "ts2": "2021-03-04 05:06:07"}, Time: 1600000000000000000},
 		{Meas: "m2", Tags: nil, Fields: map[string]any{"message": "x", "sq": "SELECT 'a\\' , b -- '\nFROM t"}, Time: 1}, // no tags at all (as every text input)
 		{Meas: "m3", Tags: map[string]string{"t1": "a", "t2": "b", "t3": "c"}, Fields: map[string]any{"message": nil, "f1": "s", "f2": true, "f3": int64(1), "f4": int64(2), "sq": `select "prod\users" from t where p = 'x\'`}, Time: 2},
 	}
@@ -162,6 +165,27 @@ func c15Ops() []c15Op {
 			return fmt.Sprintf("trace=%v err=%v", res.Trace, res.Err)
 		}}
 	}
+	// a script loaded by one operation, held by the host, and run by a later operation: whatever was
+	// parsed, loaded or run in between, it still is the script its text says
+	escSrc := "add_key(e1, \"a\\tb\")\nadd_key(e2, \"q\\\"r\\\\s\\x41\")\n`k y` = 'v\\u00e9'\nadd_key(e3, `k y`)\nif _ == \"hello\\x2042\" { add_key(eq, true) }\nreplace(message, \"h\\x65llo\", \"J\\x41\")\nadd_key(m, {\"k\\n\": [1.5, \"\\\\\"]})\n"
+	keepLoad := c15Op{Name: "keepload(esc.p)", Do: func(env *c15Env) string {
+		ok, errs := drv.Load(map[string]string{"esc.p": escSrc})
+		if e, bad := errs["esc.p"]; bad {
+			return "load-error: " + e.Error()
+		}
+		env.kept["esc.p"] = ok["esc.p"]
+		return fmt.Sprintf("kept %d statements", len(ok["esc.p"].Ast))
+	}}
+	runKept := c15Op{Name: "runkept(esc.p)", Do: func(env *c15Env) string {
+		if env.kept["esc.p"] == nil {
+			ok, errs := drv.Load(map[string]string{"esc.p": escSrc})
+			if e, bad := errs["esc.p"]; bad {
+				return "load-error: " + e.Error()
+			}
+			env.kept["esc.p"] = ok["esc.p"]
+		}
+		return runOnPooledPoint(env.kept["esc.p"], pts[0], 0)
+	}}
 	grokExpr := "grok(_, \"%{WORD:first} %{INT:n:int}\")\n"
 	return []c15Op{
 		loadRun("grok with global patterns", map[string]string{"g.p": "if true {\n" + grokExpr + "}\n"}, "g.p", 0),
@@ -194,6 +218,9 @@ func c15Ops() []c15Op {
 		runOp("jsonmut.p", 0, 0),
 		runOp("usebad.p", 0, 0),
 		runOp("pf.p", 1, 0),
+		runOp("tz.p", 0, 0),
+		keepLoad,
+		runKept,
 		runV2("dflt.p"),
 		runV2("vars.p"),
 		runV2("read.p"),
@@ -223,6 +250,7 @@ type c15Timer struct {
 // last operation, the choice points met and the choices taken.
 func c15Exec(env *c15Env, ops []c15Op, hist []int, prefix []int) (last string, points []c15Point, taken []int, badPrefix bool) {
 	c15Drain()
+	env.kept = map[string]*plrt.Script{}
 	// timer seam: a callback armed by one operation and still pending is delivered — if the explorer
 	// says so — right after a pool Get of a LATER operation (an answer -(a+1) means: answer a, then
 	// deliver). A timer the code has stopped is never delivered.
@@ -485,7 +513,7 @@ func init() {
 	run.Register(&run.Check{
 		ID:    "C15",
 		Level: "model_checking",
-		Rule: "operation histories of length <=3 (thorough <=4) over 30 operations: load-and-run of a grok script with global patterns / under a local pattern of the same name / of another deployment whose entry file has the same text as a loaded one; load of a valid / syntax-error / lexer-error / parser-panic / check-error source, of texts entering every lexer mode, of a text whose last token (no line break after it) raises a constructor fault; v2 runs of scripts that change default parameter values in place, fail inside a loop after assigning variables, read names; run of scripts that succeed, fail inside a loop, exit inside nested blocks, set variables, read the same names unbound, use grok + use(), delete and re-add tags and fields, each on a point taken from the point pool; runs cancelled at poll 1 and 7; " +
+		Rule: "operation histories of length <=3 (thorough <=4) over 33 operations: a script full of escaped literals loaded by one operation, held, and run by a later one; a run asking for an unknown, a known and the default time zone; load-and-run of a grok script with global patterns / under a local pattern of the same name / of another deployment whose entry file has the same text as a loaded one; load of a valid / syntax-error / lexer-error / parser-panic / check-error source, of texts entering every lexer mode, of a text whose last token (no line break after it) raises a constructor fault; v2 runs of scripts that change default parameter values in place, fail inside a loop after assigning variables, read names; run of scripts that succeed, fail inside a loop, exit inside nested blocks, set variables, read the same names unbound, use grok + use(), delete and re-add tags and fields, each on a point taken from the point pool; runs cancelled at poll 1 and 7; " +
 			"instrumented build with a sync.Pool shim: the answer of EVERY pool Get (parser, task, point, metadata) is an explorer choice — default LIFO reuse, then every deviation (any other pooled object, or a fresh one) at every Get, <=2 deviations per history (<=1 for the histories of maximal length); time.AfterFunc goes through a seam of the same overlay: a callback armed by one operation and not stopped may be delivered right after any pool Get of a later operation (one more kind of deviation; the unchanged tree arms no timer); " +
 			"oracle: the last operation's outcome (load verdict and error text / probe trace, canonical final point, error text, drop flag) equals the outcome of the same operation executed first in a fresh process (baselines are computed in separate subprocesses); loaded scripts are shared by all histories",
 		Assumptions: []string{"the pools and the loaded syntax trees are the only state that survives an operation (package-level variables were listed by reading the sources)"},
